@@ -5,6 +5,8 @@ import (
 	"path/filepath"
 	"testing"
 
+	"github.com/apmckinlay/gsuneido/core"
+
 	"verifsim/hkit"
 	"verifsim/simrt"
 )
@@ -26,7 +28,13 @@ func TestSim(t *testing.T) {
 			c.AdvanceNum, c.AdvanceDen = 1, 400
 			return c
 		},
-		Main:       Run,
+		Main: Run,
+		Warmup: func(string) {
+			// the first lookup of a table's trigger takes a different path than later ones
+			for _, n := range tableNames {
+				core.Global.FindName(nil, "Trigger_"+n)
+			}
+		},
 		WarmupRuns: 3,
 	})
 }
